@@ -65,4 +65,82 @@ TEXT = {
                  "kind; iff with Claims_WF / Kdf_WF, fields = *_ValueOf, decode(encode(x)) = x; replayed on the crate (private KDF fields "
                  "observed through to_vec read by the independent reader).",
         "note": TRUST, "technique": MC + " (spec/Cwt.tla, spec/Kdf.tla, spec/mc/MC_Cwt.tla, MC_Kdf.tla)"},
+    "C01": {
+        "level": "Exploration driven and judged by the specification: in spec/Cose.tla every decoder action has outcome ok|err only, and "
+                 "follow-up actions panic exactly under the documented preconditions (TLC: MC_DecodeTotal, invariants InvDecodeTotal, InvOrig, "
+                 "InvDocPanic, InvEncodeOk over accepted items x encodings x every follow-up). Those behaviours are replayed on the crate; each "
+                 "wire is additionally mutated (seeded) through all 36 byte-level entry points; TLC-enumerated nesting recipes over 13 recursive "
+                 "grammar positions (MC_Nesting; bytes bound to the spec for small repetition counts) are materialised up to 4096/65536 levels and "
+                 "decoded in a child process on the default 8 MiB stack; all strings of length <= 2, the repository's test vectors, their "
+                 "mutations and random strings go through every entry point with all follow-ups. Exploration is the honest level: 'never "
+                 "crashes on any byte string' is not decidable by a bounded model; the resource clause (time/stack) is observed, not modelled.",
+        "note": TRUST + " Stack use is observed on one platform (release build, overflow-checks on). Known finding F1 is matched by recipe tag AND failure mode.",
+        "technique": "TLA+ lifecycle machine (decoders total, documented panics) model-checked by TLC; behaviours + TLC-enumerated nesting recipes + seeded mutation fuzzing replayed on the crate (child process for deep inputs)"},
+    "C02": {
+        "level": "TLC enumerates 8 header contents x 9 encodings of that content (minimal, every head 1/2/4/8 bytes, indefinite with two "
+                 "chunkings, zero-length form, bignum key) x 17 carriers/nesting positions (bodies, signers 0 and 2, recipients to depth 3, "
+                 "counter-signature in unprotected and inside protected, SuppPubInfo, KDF context) and checks on the Design: accepted, retained "
+                 "bytes = received slot at that position, parsed view = Header_ValueOf(content) for every encoding, re-encoding = received wire, "
+                 "every structure handed to a closure contains the received slot. Each case is a session replayed on the crate (inject, decode, "
+                 "encode, tbs/verify/decrypt, counter-signature structure) with bytes, closure arguments and value compared.",
+        "note": TRUST, "technique": MC + " (spec/mc/MC_ProtBytes.tla, sessions through spec/Cose.tla Step)"},
+    "C03": {
+        "level": "TLC enumerates (API route [14], body protected [5 built + 5 decoded incl. non-canonical], signer protected, AAD length class, "
+                 "payload length class or absent) and checks that every structure observed through the free function, tbs_*, and every "
+                 "create/verify closure equals the RFC 8152 4.4 array encoded by the spec's own deterministic encoder, that refusals are exactly "
+                 "the documented ones, that verify hands over the stored signature and returns the closure's result, and injectivity over the "
+                 "palette; every tuple is replayed on the crate byte for byte (built protected slots modulo entry order) with an "
+                 "implementation-level injectivity table over all outputs.",
+        "note": TRUST, "technique": MC + " (spec/Struct.tla, spec/mc/MC_Struct.tla Fam=sig)"},
+    "C04": {
+        "level": "As C03 for MAC_structure (RFC 8152 6.3): 8 routes (free function for MAC/MAC0, verify_tag, create_tag, try_create_tag), "
+                 "payload absent => documented panic, contexts separated (injectivity across MAC/MAC0/Signature1/Encrypt0 families).",
+        "note": TRUST, "technique": MC + " (spec/mc/MC_Struct.tla Fam=mac)"},
+    "C05": {
+        "level": "As C03 for Enc_structure (RFC 8152 5.3): 18 routes over the five contexts and three carriers, recipient operations with a "
+                 "non-recipient context and decryption without ciphertext => documented panic, injectivity across contexts.",
+        "note": TRUST, "technique": MC + " (spec/mc/MC_Struct.tla Fam=enc)"},
+    "C06": {
+        "level": "TLC explores the lifecycle machine new -> <=2/3 builder calls (setters and create helpers in any order, closure result "
+                 "environment-chosen incl. failing) -> build -> to_vec|to_tagged_vec -> from_slice|from_tagged_slice -> one verify/decrypt with "
+                 "equal or perturbed AAD/payload/index, for 7 carriers, and checks relationally on the Design: wire-faithfulness, verify hands "
+                 "over the stored signature/tag/ciphertext and returns the result unchanged, created bytes = verified bytes IFF protected slot, "
+                 "payload, AAD (and context) are unchanged since the create call, failing creator => error and no message. Every complete "
+                 "behaviour is replayed end to end on the crate with recording closures and compared step by step.",
+        "note": TRUST, "technique": "TLA+ lifecycle state machine model-checked by TLC (spec/mc/MC_RoundTrip.tla); every behaviour replayed on the crate"},
+    "C07": {
+        "level": "TLC checks decode;encode;decode;encode on accepted items of every type x 7 encoding strategies x tagged/untagged plus "
+                 "hand-made wires for everything re-encoding changes (bignum integers in key and value position, indefinite lengths, "
+                 "4-element recipient with empty list, reordered key_ops, f16/f32/f64/NaN, two-byte simple values, nested indefinite chunks); "
+                 "the Design with ciborium's behaviour modelled reproduces finding F7 (invariant InvF7) and satisfies the property everywhere "
+                 "else. The crate runs the same relational check on those wires and on every accepted wire of five decode instances.",
+        "note": TRUST + " Purely relational on the crate's own outputs (no expected field values), so a symmetric encoder/decoder slip is not reported here.",
+        "technique": MC + " (spec/mc/MC_FixedPoint.tla); relational fixed-point check on the crate over spec-generated wires"},
+    "C11": {
+        "level": "TLC enumerates well-formed in-memory values of 19 type classes over per-field palettes and checks: encoding succeeds; the "
+                 "output read back by the Prop layer (WF/ValueOf) is the value with protected bytes assigned; explicit omission rules (count of "
+                 "map entries, single counter-signature inlined, zero-length protected iff empty, recipient list omitted when empty); decode of "
+                 "the output returns the value. The crate's to_vec output is read by the independent strict reader (definite lengths, shortest "
+                 "heads) and compared with the spec's item (maps modulo entry order, extras order checked separately), then decoded again.",
+        "note": TRUST, "technique": MC + " (spec/mc/MC_Encode.tla)"},
+    "C13": {
+        "level": "TLC checks on accepted items x 4 encodings: every proper prefix rejected, every suffix of a 7-element suffix set gives "
+                 "ExtraneousData, Parse is prefix-free, and the same for the header map inside a protected bstr. The crate is run on every cut "
+                 "point and suffix of those wires and of every accepted wire of five decode instances, plus byte-API vs Value-API agreement in "
+                 "both directions.",
+        "note": TRUST, "technique": MC + " (spec/mc/MC_OneItem.tla); prefix/suffix/API-agreement sweep on the crate"},
+    "C19": {
+        "level": "TLC explores every builder as a state machine whose state is the call history (all sequences up to 2/3 calls over the "
+                 "method palette of each of the 14 builders, 6 key constructors) with invariants IV/PIV exclusion, frame condition of each "
+                 "header setter, reserved labels never enter the extras, built protected headers carry no retained bytes; every history is "
+                 "replayed from new() on the crate and the built value / panic compared after each prefix.",
+        "note": TRUST + " param(0, _) on CoseKeyBuilder is emitted unjudged (label 0 is Reserved in the registry; the property names only the common key parameters).",
+        "technique": "TLA+ builder state machines (spec/Builder.tla) model-checked by TLC (spec/mc/MC_Builder.tla); every history replayed on the crate"},
+    "C20": {
+        "level": "TLC enumerates 16 typed-field subsets x every arrangement of up to 2/3 distinct extra labels out of 16 x both orderings and "
+                 "checks on the Design: encoded keys strictly ascending under the order computed on the ENCODED keys (except the known class "
+                 "'extras contain integer label 0', for which the Design provably fails: InvF6Exact), pair set unchanged, idempotent, "
+                 "decode/encode stable. The crate's canonicalize + to_vec is read by the independent reader and judged by the same predicate.",
+        "note": TRUST + " Known finding F6 matched by the input tag extras-contain-int-label-0.",
+        "technique": MC + " (spec/Key.tla Key_Canonicalize, spec/mc/MC_Canon.tla)"},
 }
